@@ -1108,7 +1108,12 @@ class SpectrumResult:
             for d in self._data["D"]:
                 arr = np.asarray(d, dtype=np.int64)
                 D_list.append(arr)
-            self._data["D"] = np.array(D_list, dtype=object)
+            # Build element-wise: np.array() would make a 2-D array when all
+            # bins happen to have the same number of segments.
+            D_obj = np.empty(len(D_list), dtype=object)
+            for j, arr in enumerate(D_list):
+                D_obj[j] = arr
+            self._data["D"] = D_obj
 
         # Convenience: number of frequency bins
         self.nf = int(self._data.get("f", np.array([])).shape[0])
